@@ -140,6 +140,8 @@ def meaning_decl(m):
         return {"k": "anyOf", "fields": [meaning_decl(m["x"]), {"k": "noneF"}]}
     if t == "alt":
         return {"k": "anyOf", "fields": [meaning_decl(m["x"]), meaning_decl(m["y"])]}
+    if t == "altlit":      # documented: `X | 529` - the literal is one more alternative (an Enum of that value)
+        return {"k": "anyOf", "fields": [meaning_decl(m["x"]), {"k": "enumLit", "values": [m["v"]]}]}
     if t == "struct":      # a Structure class used as a field type: a reference to that class
         return struct_decl(m["c"])
     if t == "tup":         # documented: Tuple[X, Y] = a tuple of exactly that shape
@@ -209,6 +211,9 @@ def gen_meaning(rng, dg, depth, allow_opt=True):
         return {"m": "coll", "c": c, "x": x}
     if r < 0.56:
         return {"m": "tup", "x": gen_meaning(rng, dg, depth - 1), "y": gen_meaning(rng, dg, depth - 1)}
+    if r < 0.6:        # `X | 529`, `X | "abc"`: a literal alternative
+        x = gen_meaning(rng, dg, depth - 1, allow_opt=False)
+        return {"m": "altlit", "x": x, "v": rng.choice([529, 0, -3, "abc", "", True, gen.fl(gen.Fraction(5, 2))])}
     if r < 0.72:
         return {"m": "dict", "x": gen_hashable(rng, dg), "y": gen_meaning(rng, dg, depth - 1)}
     if r < 0.86 and allow_opt:
@@ -248,7 +253,7 @@ def is_field_expr(sp):
     if s in ("fcls", "finst", "lit", "bareCls", "bareInst", "sub", "call", "mapBare", "mapInst", "mapSub", "mapCall",
              "anyOf", "tupSub", "tupCall"):
         return True
-    if s == "pipe":
+    if s in ("pipe", "pipeLit"):
         return is_field_expr(sp["x"])
     return False
 
@@ -373,6 +378,15 @@ def spell(m, rng, style):
             if not (is_field_or_struct(x) and is_field_or_struct(y)):
                 form = "mapSub"
         return {"s": form, "x": x, "y": y}
+    if t == "altlit":
+        # the left operand must be a Field (class or instance) for `|` with a plain value to be defined
+        x = spell(m["x"], rng, style)
+        if not is_field_expr(x):
+            x = spell(m["x"], rng, rng.choice(["native", "call", "inst"]))
+        enum = {"s": "lit", "d": {"k": "enumLit", "values": [m["v"]]}, "len": 0}
+        if is_field_expr(x) and st in ("inst", "pep604", "builtin", "typing"):
+            return {"s": "pipeLit", "x": x, "v": m["v"], "len": len(py_literal(m["v"]))}
+        return {"s": "anyOf", "x": x, "y": enum}
     if t == "tup":
         form = {"native": "tupSub", "builtin": "tup585", "typing": "tupTyping", "call": "tupCall", "inst": "tupSub",
                 "pep604": "tup585"}[st]
@@ -503,11 +517,13 @@ def render(sp, default=None):
         return f"AnyOf[{render(sp['x'])}, {render(sp['y'])}]"
     if s == "pipe":
         r = render(sp["y"])
-        if sp["y"]["s"] == "pipe":
+        if sp["y"]["s"] in ("pipe", "pipeLit"):
             r = f"({r})"
         return f"{render(sp['x'])} | {r}"
     if s == "scls":
         return sp["c"]
+    if s == "pipeLit":
+        return f"{render(sp['x'])} | {py_literal(sp['v'])}"
     if s == "tup585":
         return f"tuple[{render(sp['x'])}, {render(sp['y'])}]"
     if s == "tupTyping":
@@ -1378,7 +1394,10 @@ def scope_cases(rng, tier):
                     if b is bases[0] and scope == "module" and not future and not quoted:
                         continue
                     fields = [dict(f, quoted=True) if quoted and f["mode"] == "ann" else f for f in b["fields"]]
-                    vs.append(mark_unresolved({"future": future, "scope": scope, "fields": fields}))
+                    extra = {k: b[k] for k in ("required", "undocumented") if b.get(k) is not None}
+                    if extra and quoted:
+                        continue      # (`_required` is not combined with quoted annotations, see gen_case)
+                    vs.append(mark_unresolved(dict({"future": future, "scope": scope, "fields": fields}, **extra)))
         c["variants"] = vs
         cases.append(c)
     return cases
